@@ -45,7 +45,8 @@ def base_event(op, data, out, before):
 def make_data(rng, n, ncols, frame, classes=(0.0, 1.0, 2.0), style=None):
     if classes == (0.0, 1.0, 2.0) and rng.random() < 0.3:
         # class labels that are large and close to each other (period codes, ids): distinct labels are distinct classes
-        classes = rng.choice([(202401.0, 202402.0, 202403.0), (1000000.0, 1000001.0, 1000002.0)])
+        # ... or fractional codes that are not dyadic (scores / prices used as class codes): a label is a value, not a quantity to compute with
+        classes = rng.choice([(202401.0, 202402.0, 202403.0), (1000000.0, 1000001.0, 1000002.0), (0.1, 0.7, 0.3), (1.1, 2.2, 3.3)])
     a = np.array([[float(rng.randint(-5, 9)) for _ in range(ncols - 1)] + [rng.choice(classes)] for _ in range(n)], dtype=float).reshape(n, ncols)
     names = ["f%d" % i for i in range(ncols - 1)] + ["y"]
     if frame:
